@@ -137,8 +137,25 @@ func genC13(r *kit.RNG) *C13Scenario {
 		sc.ECS = true
 		names = append(names, "loop.beta.test.", "loop.beta.test.", "loop.beta.test.")
 	}
-	n := r.Range(6, 30)
 	t := 0
+	if r.Chance(0.2) {
+		// zone-cover recipe: every server of alpha.test. fails fast for a while. One name fails
+		// (its own failure and the zone's are remembered); once both have run out another name
+		// of the zone leads the retry and fails again, which renews the zone's back-off only;
+		// inside that window the first name - whose own history has expired - is asked again
+		kind := kit.Pick(r, []string{"servfail", "refused"})
+		sc.Outages = append(sc.Outages, C13Outage{Zone: "alpha.test.", FromMs: 0, ToMs: 20000 + 4000*sc.MinS, Kind: kind})
+		x, y := kit.Pick(r, []string{"www.alpha.test.", "mail.alpha.test."}), "alpha.test."
+		t = 1500
+		sc.Ops = append(sc.Ops, C13Op{AtMs: t, Name: x, Type: 1})
+		t += sc.MinS*1000 + kit.Pick(r, []int{300, 700})
+		sc.Ops = append(sc.Ops, C13Op{AtMs: t, Name: y, Type: 1})
+		for _, frac := range []int{4, 2} {
+			sc.Ops = append(sc.Ops, C13Op{AtMs: t + sc.MinS*1000/frac, Name: x, Type: 1})
+		}
+		t += sc.MinS*1000 + 7000
+	}
+	n := r.Range(6, 30)
 	for i := 0; i < n; i++ {
 		t += kit.Pick(r, []int{100, 500, 1000, 2500, 5000, 7000, 11000, 21000, 41000, 90000})
 		op := C13Op{AtMs: t, Name: kit.Pick(r, names), Type: uint16(kit.Pick(r, []int{1, 1, 1, 28, 16})), CD: r.Chance(0.15)}
@@ -321,6 +338,12 @@ func execC13(sc *C13Scenario, tr *kit.Trace, res *kit.Result) {
 	qFails := map[string]*c13Fail{} // exact question -> last genuine failure + streak
 	zFails := map[string]*c13Fail{} // zone -> same
 	localFail := map[string]time.Duration{}
+	// sureZone: zones for which a failure is beyond doubt — a plain question (no CD, audience,
+	// deadline, burst or budget) was answered SERVFAIL after every server of the one failing
+	// zone on its path had answered with a failure rcode. The zone's back-off has started and
+	// lasts at least the configured minimum.
+	sureZone := map[string]time.Duration{}
+	c13Servers := map[string]int{"alpha.test.": 2, "beta.test.": 2, "sub.alpha.test.": 1}
 	minW, maxW := time.Duration(sc.MinS)*time.Second, time.Duration(sc.MaxS)*time.Second
 	allowed := func(f *c13Fail) time.Duration {
 		d := minW
@@ -436,6 +459,15 @@ func execC13(sc *C13Scenario, tr *kit.Trace, res *kit.Result) {
 		tr.AddAt(arrive, "op %d %s/%s cd=%v aud=%s deadline=%dms -> %s ede=%q upstream=%d lat=%v", i, op.Name, dns.TypeToString[op.Type], op.CD, c13Audience(sc, op), op.DeadlineMs, rc, ede, upstream, lat)
 		tr.Shape(fmt.Sprintf("%s|%v|%v", rc, suppressed, op.DeadlineMs > 0))
 		octx := fmt.Sprintf("op %d %s/%s cd=%v audience %s at %v (min %ds max %ds): reply %s ede=%q upstream=%d", i, op.Name, dns.TypeToString[op.Type], op.CD, c13Audience(sc, op), arrive, sc.MinS, sc.MaxS, rc, ede, upstream)
+		plainOp := !op.CD && op.Sub == 0 && op.DeadlineMs == 0 && op.Burst == 0 && sc.Budget == 0 && !sc.ECS && !sc.RFC9520Off && sc.Size >= 4096
+		if !suppressed && plainOp && upstream > 0 {
+			for z, at := range sureZone {
+				if dns.IsSubDomain(z, dns.CanonicalName(op.Name)) && arrive > at && arrive-at < time.Duration(sc.MinS)*time.Second-300*time.Millisecond {
+					res.Fail("C13/retry-inside-minimum-backoff", "%s: every server of %s failed %v ago (the back-off lasts at least %ds) and nothing useful has been heard since, yet this question for a name in the zone sent %d packets upstream", octx, z, arrive-at, sc.MinS, upstream)
+					return
+				}
+			}
+		}
 		if suppressed {
 			res.Nontrivial = true
 			res.Probes["suppressed"]++
@@ -550,6 +582,10 @@ func execC13(sc *C13Scenario, tr *kit.Trace, res *kit.Result) {
 					zf.at = done
 				}
 				res.Probes["genuine-failure"]++
+				if fz := failingZones(op.Name, arrive); plainOp && len(fz) == 1 && (o1.Kind == "servfail" || o1.Kind == "refused") && c13Servers[fz[0]] > 0 && int(upstream) >= c13Servers[fz[0]] {
+					sureZone[fz[0]] = done
+					res.Probes["zone-failure-beyond-doubt"]++
+				}
 			} else if local {
 				localFail[qkey] = done
 				res.Nontrivial = true
@@ -577,6 +613,11 @@ func execC13(sc *C13Scenario, tr *kit.Trace, res *kit.Result) {
 		} else {
 			// a useful answer resets the back-off of the question and of its zone
 			delete(qFails, qkey)
+			if upstream > 0 {
+				for z := range sureZone {
+					delete(sureZone, z)
+				}
+			}
 			if zone != "" && upstream > 0 {
 				delete(zFails, zone)
 				for z := range zFails {
